@@ -56,9 +56,10 @@ def cases(rng, tier):
             # one announcement per owner name: two different TXT records under one owner are merged in HashMap
             # iteration order, which neither the model nor the property fixes
             if full in seen:
-                # a re-announcement of an instance already announced: same ports and attributes, a superset of the addresses
+                # a re-announcement of an instance already announced that changes its data: the same attributes, a superset of
+                # the addresses and of the ports (C15_any_batches: records heard before are refreshed, new ones are added)
                 prev = next(q for q in peers if q["name"] + "." + q["svc"] == full)
-                p = dict(prev, ips=list(dict.fromkeys(prev["ips"] + p["ips"])))
+                p = dict(prev, ips=list(dict.fromkeys(prev["ips"] + p["ips"])), ports=list(dict.fromkeys(prev["ports"] + p["ports"])))
             seen.add(full)
             peers.append(p)
         if rng.chance(1, 3):
